@@ -6,29 +6,10 @@ import RSocketModel.Gen.SendSites
 frame through the lease gate, `Engine/Step.lean` emits CANCEL / REQUEST_N / PAYLOAD / ERROR in call
 order behind what is already queued. Those are facts about *which function each call site uses*;
 `Gen.sendSites` is read from the source's AST on every run and the theorems below are what the
-models rely on.
+models rely on (they constrain the paths, not the number of call sites: a new call that queues at the
+back, or a new request that goes through `send_request`, leaves them true).
 -/
 namespace RSocketModel.SendSites
-
-/-- the whole table, as the models were written against it -/
-theorem c05_send_sites :
-    Gen.sendSites =
-      [("rsocket/handlers/request_channel_requester.py", "RequestChannelRequester._send_channel_request", "send_request", "to_request_channel_frame"),
-       ("rsocket/handlers/request_response_requester.py", "RequestResponseRequester.run", "send_request", "request"),
-       ("rsocket/handlers/request_stream_requester.py", "RequestStreamRequester._send_stream_request", "send_request", "to_request_stream_frame"),
-       ("rsocket/rsocket_base.py", "RSocketBase._send_new_keepalive", "send_frame", "to_keepalive_frame"),
-       ("rsocket/rsocket_base.py", "RSocketBase.connect", "send_priority_frame", "_create_setup_frame"),
-       ("rsocket/rsocket_base.py", "RSocketBase.fire_and_forget", "send_request", "frame"),
-       ("rsocket/rsocket_base.py", "RSocketBase.handle_keep_alive", "send_frame", "frame"),
-       ("rsocket/rsocket_base.py", "RSocketBase.handle_lease", "send_frame", "get_nowait"),
-       ("rsocket/rsocket_base.py", "RSocketBase.metadata_push", "send_frame", "frame"),
-       ("rsocket/rsocket_base.py", "RSocketBase.send_error", "send_frame", "exception_to_error_frame"),
-       ("rsocket/rsocket_base.py", "RSocketBase.send_lease", "send_frame", "to_frame"),
-       ("rsocket/rsocket_base.py", "RSocketBase.send_payload", "send_frame", "to_payload_frame"),
-       ("rsocket/rsocket_base.py", "RSocketBase.send_request", "send_frame", "frame"),
-       ("rsocket/streams/stream_handler.py", "StreamHandler.send_cancel", "send_frame", "to_cancel_frame"),
-       ("rsocket/streams/stream_handler.py", "StreamHandler.send_request_n", "send_frame", "to_request_n_frame")] := by
-  decide
 
 /-- **only SETUP jumps the queue**: the single call of `send_priority_frame` is `connect()` with the
 SETUP frame; CANCEL, ERROR, KEEPALIVE, LEASE, REQUEST_N and PAYLOAD all go to the back -/
@@ -44,6 +25,14 @@ theorem c14_requests_pass_the_lease_gate :
     (Gen.sendSites.filter (fun r => r.2.2.1 == "send_request")).map (fun r => r.2.1) =
       ["RequestChannelRequester._send_channel_request", "RequestResponseRequester.run",
        "RequestStreamRequester._send_stream_request", "RSocketBase.fire_and_forget"] := by
+  decide
+
+/-- the helpers the stream handlers use — elements and completions, errors, credit, cancellation,
+keepalives, leases — all queue at the back with `send_frame` -/
+theorem c05_stream_helpers_queue_at_the_back :
+    ∀ f ∈ ["RSocketBase.send_payload", "RSocketBase.send_error", "StreamHandler.send_cancel", "StreamHandler.send_request_n",
+           "RSocketBase._send_new_keepalive", "RSocketBase.handle_keep_alive", "RSocketBase.send_lease"],
+      (Gen.sendSites.filter (fun r => r.2.1 == f)).map (fun r => r.2.2.1) = ["send_frame"] := by
   decide
 
 end RSocketModel.SendSites
